@@ -961,39 +961,130 @@ def bytes_summary(k, tag="bytes"):
     return summ
 
 
+def canon_summaries(k, ghosts):
+    """Element.Bytes / Element.reduce by their contracts (K-red, K-ser, discharged from the real code in the same check),
+    stated over a ghost 'canonical value' per distinct limb content: Bytes = the 32-byte little-endian encoding of the
+    ghost, reduce = the five 51-bit limbs of the ghost, ghost < p.  ghosts: content key -> 255-bit term (pre-seeded with
+    the operands' ghosts); unknown contents get fresh ghosts."""
+    ex = k.ex
+
+    def ghost_of(path, contents):
+        key = tuple(map(str, contents))
+        g = path.dstate.setdefault("ghosts", dict(ghosts)).get(key)
+        if g is None:
+            n = path.dstate.setdefault("nghost", [0])
+            n[0] += 1
+            g = k.bv("canon%d" % n[0], 255)
+            path.pc.append(z3.ULT(g, z3.BitVecVal(P, 255)))
+            path.dstate["ghosts"][key] = g
+        return g
+
+    def bytes_s(ex_, path, args):
+        (v,) = args
+        g = ghost_of(path, ex_.load(path, v))
+        n = path.dstate.setdefault("nbytes", [0])
+        n[0] += 1
+        bs = [z3.BitVec("bytes%d[%d]" % (n[0], i), 8) for i in range(32)]
+        path.pc.append(cat_bytes(bs) == z3.ZeroExt(1, g))
+        oid = ex_.new_obj(path, ("array", 32, ex_.prog.T("uint8")), name="Bytes()", init=list(bs), kind="heap")
+        path.dstate.setdefault("canon_used", []).append(g)
+        return X.SliceV(oid, (), 0, 32, 32)
+
+    def reduce_s(ex_, path, args):
+        (v,) = args
+        g = ghost_of(path, ex_.load(path, v))
+        n = path.dstate.setdefault("nred", [0])
+        n[0] += 1
+        limbs = [z3.BitVec("red%d.l%d" % (n[0], i), 64) for i in range(5)]
+        for l in limbs:
+            path.pc.append(z3.ULE(l, z3.BitVecVal(M51, 64)))
+        path.pc.append(limbs_val(limbs, 256) == z3.ZeroExt(1, g))
+        # the reduced limbs denote the same ghost (reduce is idempotent)
+        path.dstate["ghosts"][tuple(map(str, limbs))] = g
+        ex_.store(path, v, tuple(limbs))
+        path.dstate.setdefault("canon_used", []).append(g)
+        return v
+    ex.summaries[k.prog.find("Element).Bytes")] = bytes_s
+    ex.summaries[k.prog.find("Element).reduce")] = reduce_s
+
+
 def k_equal_isneg(base, chk):
+    """Element.Equal(v, u) = 1 iff the canonical values agree, else 0 - whatever way the body obtains them (through
+    Bytes + ConstantTimeCompare as today, or through reduce and limb comparisons): both Bytes and reduce are replaced by
+    their contracts over ghost canonical values, the comparison code itself is executed bit-precisely."""
     fname = base.prog.find("Element).Equal")
     k = BVK(base, chk, fname)
     chk.used(base.prog, "crypto/subtle.ConstantTimeCompare", "BV (standard library SSA)")
-    k.ex.summaries[base.prog.find("Element).Bytes")] = bytes_summary(k)
     v, vl = k.elem("v")
     u, ul = k.elem("u")
+    gv, gu = k.bv("canon(v)", 255), k.bv("canon(u)", 255)
+    k.path.pc += [z3.ULT(gv, z3.BitVecVal(P, 255)), z3.ULT(gu, z3.BitVecVal(P, 255))]
+    canon_summaries(k, {tuple(map(str, vl)): gv, tuple(map(str, ul)): gu})
     paths = k.run([v, u])
     bad = [p for p in paths if p.outcome[0] != "ret"]
     chk.add(Ob("Equal: returns normally on every path (%d path(s))" % len(paths), "unsat" if paths and not bad else "sat", 0, [fname], "BV", detail=str([p.outcome for p in bad][:2])))
     for pi, p in enumerate(p for p in paths if p.outcome[0] == "ret"):
         tag = "" if len(paths) == 1 else " [path %d]" % pi
         r = p.outcome[1][0]
-        bo = p.dstate.get("bytes_of", [])
-        if len(bo) != 2:
-            chk.soft("Equal%s: obtains the canonical encoding of both operands" % tag, False, [fname])
-            continue
-        (e1, b1), (e2, b2) = bo
-        same = z3.And([x == y for x, y in zip(b1, b2)])
         rv = r if not type(r) is int else z3.BitVecVal(r, 64)
-        k.prove(p, "returns exactly 1 when the canonical encodings are equal, else exactly 0" + tag, z3.If(same, rv == 1, rv == 0))
-        k.prove(p, "compares the encodings of both operands" + tag, {tuple(map(str, e1)), tuple(map(str, e2))} == {tuple(map(str, vl)), tuple(map(str, ul))})
-    k.settle()
+        k.prove(p, "returns exactly 1 when the canonical values of the operands are equal, else exactly 0" + tag, z3.If(gv == gu, rv == 1, rv == 0))
+        wr = [w for w in p.log if w[0] == "w" and w[1] in (v.obj, u.obj)]
+        k.prove(p, "operands not written" + tag, not wr)
+
+    def replay(models, seed):
+        from . import native, ref
+        import random
+        rng = random.Random(seed)
+        pairs = []
+        for m in models:
+            if "canon(v)" in m and "canon(u)" in m:
+                a, b = int(m["canon(v)"]) % P, int(m["canon(u)"]) % P
+                pairs += [(ref.limbs_of(a), ref.limbs_of(b)), (ref.limbs_of(b), ref.limbs_of(a))]
+        pool = ref.limb_candidates(rng, 40)
+        for i, a in enumerate(pool):
+            pairs += [(a, a), (a, pool[(i + 1) % len(pool)]), (a, ref.limbs_of(ref.fe_val(a) % P)), (a, ref.limbs_of((ref.fe_val(a) + 1) % P))]
+            # values differing in a single bit / a single limb-aligned chunk
+            va = ref.fe_val(a) % P
+            for bit in (0, 31, 32, 50, 51, 83, 127, 200, 254):
+                pairs.append((ref.limbs_of(va), ref.limbs_of((va ^ (1 << bit)) % P)))
+        ops = [{"op": "Equal", "args": ["a", "b"], "init": {"a": ref.fmt_limbs(a), "b": ref.fmt_limbs(b)}} for a, b in pairs]
+        res = native.run_ops("field", ops)
+        for (a, b), r in zip(pairs, res):
+            if "panic" in r:
+                return dict(what="Equal panics: %s" % r["panic"], op="Equal", inputs=dict(a=a, b=b))
+            want = 1 if ref.fe_val(a) % P == ref.fe_val(b) % P else 0
+            if r["int"] != want:
+                return dict(what="Element.Equal(%s, %s) = %s, expected %d" % (a, b, r["int"], want), op="Equal", inputs=dict(a=a, b=b))
+        return None
+    k.settle(replay)
 
     fname = base.prog.find("Element).IsNegative")
     k = BVK(base, chk, fname)
-    k.ex.summaries[base.prog.find("Element).Bytes")] = bytes_summary(k)
     v, vl = k.elem("v")
-    (p,) = k.run([v])
-    r = p.outcome[1][0]
-    (e1, b1), = p.dstate["bytes_of"]
-    k.prove(p, "returns bit 0 of the canonical encoding (parity of the reduced value), as 0/1", r == z3.ZeroExt(63, z3.Extract(0, 0, b1[0])))
-    k.settle()
+    gv = k.bv("canon(v)", 255)
+    k.path.pc.append(z3.ULT(gv, z3.BitVecVal(P, 255)))
+    canon_summaries(k, {tuple(map(str, vl)): gv})
+    paths = k.run([v])
+    bad = [p for p in paths if p.outcome[0] != "ret"]
+    chk.add(Ob("IsNegative: returns normally on every path (%d path(s))" % len(paths), "unsat" if paths and not bad else "sat", 0, [fname], "BV"))
+    for pi, p in enumerate(p for p in paths if p.outcome[0] == "ret"):
+        tag = "" if len(paths) == 1 else " [path %d]" % pi
+        r = p.outcome[1][0]
+        rv = r if not type(r) is int else z3.BitVecVal(r, 64)
+        k.prove(p, "returns bit 0 of the canonical encoding (parity of the reduced value), as 0/1" + tag, rv == z3.ZeroExt(63, z3.Extract(0, 0, gv)))
+        k.prove(p, "operand not written" + tag, not [w for w in p.log if w[0] == "w" and w[1] == v.obj])
+
+    def replay_neg(models, seed):
+        from . import native, ref
+        import random
+        rng = random.Random(seed)
+        cands = [ref.limbs_of(int(m["canon(v)"])) for m in models if "canon(v)" in m] + ref.limb_candidates(rng, 64)
+        res = native.run_ops("field", [{"op": "IsNegative", "args": ["v"], "init": {"v": ref.fmt_limbs(c)}} for c in cands])
+        for c, r in zip(cands, res):
+            if "panic" in r or r["int"] != (ref.fe_val(c) % P) & 1:
+                return dict(what="IsNegative(%s) = %s, expected %d" % (c, r.get("int", r.get("panic")), (ref.fe_val(c) % P) & 1), op="IsNegative", inputs=dict(v=c))
+        return None
+    k.settle(replay_neg)
 
 
 def k_setwide(base, chk):
